@@ -10,7 +10,9 @@ use serde_json::json;
 use std::path::{Path, PathBuf};
 use std::sync::Arc;
 
-pub const TRIVIA: [&str; 8] = [
+pub const TRIVIA: [&str; 10] = [
+    " /* é\n * two\n * lines */ ",
+    "\n\n// c\n\t",
     " ",
     "\t",
     "\r\n",
